@@ -8,6 +8,9 @@ import string
 EXT = None   # the parser's EXTENSION_MARKER
 
 
+PLAIN_REFERENCE_KEYS = {'type', 'name', 'optional', 'default', 'tag'}
+
+
 class Unsupported(Exception):
     pass
 
@@ -48,6 +51,7 @@ class ValGen(object):
         self.absent_additions = absent_additions
         self.size_left = 6000
         self.nodes_left = 25000
+        self.pool = {}
         # Probability of choosing an extension-addition alternative of an
         # extensible CHOICE / ENUMERATED.
         self.addition_bias = addition_bias
@@ -326,6 +330,35 @@ class ValGen(object):
 
         resolved, module_name, chain = self.resolve(desc, module_name)
         kind = resolved['type']
+
+        # Values of a named type are sometimes used again wherever that
+        # type is referenced (the same Colour through Pixel and through
+        # Pen): per-value state kept on shared compiled types shows there.
+        pool_key = None
+
+        if (len(chain) > 1 and depth > 0
+                and not (set(desc) - PLAIN_REFERENCE_KEYS)):
+            pool_key = (outer_module, desc['type'])
+            pool = self.pool.setdefault(pool_key, [])
+
+            if pool and rng.random() < 0.3:
+                import copy
+
+                return copy.deepcopy(rng.choice(pool))
+
+        value = self.gen_resolved(kind, resolved, chain, outer_module,
+                                  module_name, depth)
+
+        if pool_key is not None and len(self.pool[pool_key]) < 6:
+            import copy
+
+            self.pool[pool_key].append(copy.deepcopy(value))
+
+        return value
+
+    def gen_resolved(self, kind, resolved, chain, outer_module, module_name,
+                     depth):
+        rng = self.rng
 
         if kind == 'BOOLEAN':
             return rng.random() < 0.5
